@@ -478,6 +478,28 @@ def _r5(ctx, repo, A, wp):
                      f"`return {txt}` is not under os.WIFEXITED / os.WIFSIGNALED: "
                      f"an undecoded wait status would be reported")
     ctx.require(seen == {"exit", "sig"}, "wait_pid: status decoding returns vanished")
+    # the enum conversion is total: Negsignal(x) raises ValueError for a signal
+    # that has no name (real-time signals 34..64), so every such call sits in a
+    # try whose ValueError handler falls back to the plain number
+    from ..core.astutil import enclosing_trys, handler_catches
+    nconv = 0
+    for fx in repo.all_funcs("_psposix"):
+        for c in calls_in(fx.node):
+            if dotted(c.func) not in ("Negsignal", "signal.Signals"):
+                continue
+            nconv += 1
+            trys = enclosing_trys(fx.node, c)
+            okv = any(handler_catches(h, ["ValueError"]) and any(
+                isinstance(r_, ast.Return) and c.args and norm_stmt(r_.value) == norm_stmt(c.args[0])
+                for b_ in h.body for r_ in ast.walk(b_)) for t_ in trys for h in t_.handlers)
+            key = f"enum-total:{fx.qual}:{norm_stmt(c)}"
+            if okv:
+                ctx.ok("C15.R5", key, sample="Negsignal(n) | n on ValueError")
+            else:
+                ctx.fail("C15.R5", key, fx.file, c.lineno, fx.qual,
+                         f"`{norm_stmt(c)}` raises ValueError for a signal number without a "
+                         f"name (real-time signals): wait() on a child killed by such a "
+                         f"signal fails, the exit status is lost")
     ng = repo.func("_psposix", "negsig_to_enum", required=False)
     if ng is not None:
         rets = [s for s in ast.walk(ng.node) if isinstance(s, ast.Return)]
